@@ -163,7 +163,9 @@ def gen_config(rng, allow_uri_append=False, allow_static_param=True, rsa=None):
         u = "/" + "/".join(_word(rng, 1, 8) for _ in range(rng.choice([1, 1, 2]))) + rng.choice(["", ".js", ".php", ".gif"])
         if uris and rng.random() < (0.6 if allow_uri_append else 0.35):
             # get URIs may be prefixes of one another (/api and /api/v2): routing is by prefix, uri-append data follows
-            u = rng.choice(uris) + rng.choice(["/", "", "-"]) + _word(rng, 1, 5)
+            # the extension starts with a character no encoder alphabet or generated affix contains: otherwise uri-append
+            # data following the shorter URI could itself spell the longer one (an inherently ambiguous profile)
+            u = rng.choice(uris) + rng.choice([".", "~", ".", "~x."]) + _word(rng, 1, 5)
         if u not in uris:
             uris.append(u)
     rng.shuffle(uris)
